@@ -29,6 +29,12 @@ CLAIMED = {
  "C20": ("exploration", "stateful model-based property testing (Hypothesis histories vs a Python model of the uid rules)",
          "Histories of driver loads, load/clone/call_other-by-path by objects, seteuid, export_uid, destruct and master policy changes over files with root / backbone / wizard / open / non-string creators; after every step the (uid, euid) census of all live objects is compared with the model, creation by an euid-0 object must raise an error and create nothing, and the master's apply log must show valid_seteuid / creator_file consulted.",
          "Model written from docs/efuns/seteuid.md, export_uid.md, the master applies docs and give_uid_to_object()'s documented rules (same uid, AUTO_TRUST_BACKBONE)."),
+ "C08": ("exploration", "stateful property-based testing (Hypothesis histories with re-entrant hooks) with a C invariant walker over the driver's object structures and an efun cross-view check",
+         "Histories of load/clone/move/destruct/enable_commands/set_living_name/add_action/command/present/find_living over up to 30 objects, with armed hooks that move, destruct, clone or fail from inside create/init/move_or_destruct/id; after every top-level step the harness walks obj_list, the destruct list, the name hash, inventories, the living hash, heart beats and user slots, and an LPC cross-view compares objects()/find_object/environment/all_inventory/livings/heart_beats and every reference ever held.",
+         "Consistency invariants only; no exact abstract model of every operation's outcome."),
+ "C15": ("exploration", "bounded-exhaustive enumeration plus property-based generation (Hypothesis) of paths x file efuns x master policies, oracle over merged master-apply and interposed libc file-call logs",
+         "All path strings over {a,b,.,/,#,space} up to length 4/5 (pairs up to 2 for two-path efuns) and generated long/dotted/hidden/over-long paths, for 21 file efuns, 7 loader forms (#include \"\", <>, inherit, load_object, clone_object, find_object(p,1), call_other) and three master policies. Per call: master asked first with path, caller and operation; denied means no libc file call and failure reported; every libc path is relative, has no '..' component and is the approved path or derived from it; canary files beside the mudlib stay untouched.",
+         "Link-time interposition covers the path-taking libc functions the repository imports; ed() needs an interactive and is not driven; loaders are held to the path rules only."),
 }
 NA_REASON = "check not yet built in this session (machinery under construction; see DESIGN.md section 4 for the planned check)"
 
